@@ -116,6 +116,61 @@ def template_family(rng):
     return t1, t2
 
 
+HISTORY_JOBS = [
+    # dictionaries keyed by numerically equal keys of different types, and values that drive the number formatter through its retry path
+    "({1.0: {'a': 1}, 'x': 0}, {1.0: {'a': 2}, 'x': 0}, {})",
+    "({Decimal('1'): {'a': 1}, 'x': 0}, {Decimal('1'): {'a': 2}, 'x': 0}, {})",
+    "({True: {'a': 1}, 'x': 0}, {True: {'a': 3}, 'x': 0}, {})",
+    "({0.0: [1, 2], False and 'n' or 'm': 1}, {0.0: [1, 3], 'm': 1}, {})",
+    "({False: [1, 2]}, {False: [1, 4]}, {})",
+    "({2.5: 'p', Decimal('7'): 'q'}, {2.5: 'r', Decimal('7'): 's'}, {})",
+    "({Decimal('2.50'): 'p'}, {Decimal('2.50'): 'r'}, {})",
+    "([Decimal('999.99999999'), 1], [Decimal('999.99999998'), 2], {'significant_digits': 3})",
+    "([Decimal('123456789012345.5'), 1], [Decimal('123456789012346.5'), 1], {'significant_digits': 3})",
+    "({'k': Decimal('99999.999999')}, {'k': Decimal('100000')}, {'significant_digits': 2, 'ignore_numeric_type_changes': True})",
+    "([1.0, Decimal('1'), True], [Decimal('1'), True, 1.0], {'ignore_order': True})",
+]
+
+
+def history_independence(ctx):
+    """a result does not depend on what the process (or the thread) computed before: every job alone in a fresh interpreter is the reference;
+    then all jobs in one process, in two orders and on threads"""
+    import subprocess, sys, json, threading
+    from decimal import Decimal
+    from deepdiff import DeepDiff
+    prog = ("import sys, json\nfrom decimal import Decimal\nfrom deepdiff import DeepDiff\n"
+            "t1, t2, kw = eval(sys.argv[1])\n"
+            "try:\n    out = json.dumps(DeepDiff(t1, t2, verbose_level=2, **kw).to_dict(), default=repr, sort_keys=True)\n"
+            "except Exception as e:\n    out = 'raised ' + type(e).__name__\nprint(out)\n")
+    def local(job):
+        t1, t2, kw = eval(job, {'Decimal': Decimal})
+        try:
+            return json.dumps(DeepDiff(t1, t2, verbose_level=2, **kw).to_dict(), default=repr, sort_keys=True)
+        except Exception as e:
+            return 'raised ' + type(e).__name__
+    ref = {}
+    for job in HISTORY_JOBS:
+        r = subprocess.run([sys.executable, '-c', prog, job], capture_output=True, text=True, timeout=120)
+        ref[job] = r.stdout.strip() if r.returncode == 0 else 'subprocess failed: ' + r.stderr[-200:]
+    def compare(job, got, scenario):
+        ctx.evaluations += 1
+        ctx.count('history_independence')
+        if got != ref[job]:
+            ctx.violate({'t1': job, 't2': '', 'ignore_order': None, 'scenario': scenario},
+                        'the result depends on what was computed before: %s, alone in a fresh interpreter %s' % (got[:200], ref[job][:200]))
+    for order, name in ((HISTORY_JOBS, 'all jobs in one process, in order'), (HISTORY_JOBS[::-1], 'all jobs in one process, in reverse order')):
+        for job in order:
+            compare(job, local(job), name)
+    results = {}
+    def worker(jobs):
+        for job in jobs:
+            results[(threading.get_ident(), job)] = local(job)
+    ths = [threading.Thread(target=worker, args=(HISTORY_JOBS if i % 2 == 0 else HISTORY_JOBS[::-1],)) for i in range(4)]
+    [t.start() for t in ths]; [t.join() for t in ths]
+    for (tid, job), got in results.items():
+        compare(job, got, 'all jobs on each of four threads')
+
+
 def cache_keys(ctx):
     """the key under which a pairing is cached (combine_hashes_lists) separates different (added, removed) pairs of hash sets and does not
     depend on the order inside either set - the assumption under which the memo model identifies a cache key with its query"""
@@ -184,6 +239,7 @@ def run(ctx, impl_only=False):
     pairs += [split_family(ctx.rng) for _ in range(n // 2)]
     pairs += [template_family(ctx.rng) for _ in range(max(6, n // 2))]
     cache_keys(ctx)
+    history_independence(ctx)
     lines, metas = [], []
     grid = [(cs, ts, pl) for cs in (0, 1, 2, 7, 5000) for ts in (0, 1, 2, 10) for pl in (0, 1)]
     for i, (t1, t2) in enumerate(pairs):
